@@ -258,6 +258,31 @@ FRESH_PAIRS = [
 ]
 
 
+def launch_histories(tier: str) -> Tuple[int, List[Violation]]:
+    """A run-space launch under an explicit launch id (or an idempotency key), performed, then another launch, then the first
+    again — all in this process: the traces of the repeated launch are identical modulo the documented volatile fields."""
+    harness.quiet()
+    scratch = harness.enter_scratch()
+    viols: List[Violation] = []
+    n = 0
+    cases = traces.LAUNCH_CASES[:2] if tier == "quick" else traces.LAUNCH_CASES
+    for ci, (prog, rs) in enumerate(cases):
+        other = traces.LAUNCH_CASES[(ci + 2) % len(traces.LAUNCH_CASES)]
+        for mode in ("dir", "file"):
+            for extra in (["--run-space-launch-id", f"L-{ci}"], ["--run-space-idempotency-key", f"key-{ci}"], ["--run-space-launch-id", f"L-{ci}", "--run-space-attempt", "3"]):
+                r1, _, res1 = traces.traced_launch(prog, rs, mode=mode, extra_args=extra, scratch=scratch)
+                traces.traced_launch(other[0], other[1], mode=mode, extra_args=extra, scratch=scratch)
+                r2, _, res2 = traces.traced_launch(prog, rs, mode=mode, extra_args=extra, scratch=scratch)
+                n += 3
+                a, b = normalise(r1), normalise(r2)
+                if a != b or res1.code != res2.code:
+                    d = first_diff(a, b) or f"exit codes {res1.code} vs {res2.code}"
+                    viols.append(Violation("launch-trace-not-reproducible", f"launch {list(prog)} {extra} ({mode}) performed twice in one process: {d[:300]}; "
+                                           f"record types {[r.get('record_type') for r in r1]} vs {[r.get('record_type') for r in r2]}",
+                                           {"kind": "launch", "tier": tier}))
+    return n, viols
+
+
 def check(tier: str, seed: int) -> Result:
     if tier == "quick":
         progs = gen.programs(ALPHA_FULL, [1, 2]) + gen.programs(ALPHA_SMALL[:9], [3])
@@ -294,6 +319,9 @@ def check(tier: str, seed: int) -> Result:
         nf += o["n"]
         for sig, msg, case in o["viol"]:
             viols.append(Violation(sig, msg, case))
+    nl, vl = launch_histories(tier)
+    viols.extend(vl)
+    nh += nl
     cov = {
         "evaluations": n + nh + nf, "distinct_nontrivial": len(nontrivial) + nh + len(fjobs), "fresh_process_runs": nf,
         "rule": "observation: all programs of length 1-2 over a 20-symbol alphabet (+ length 3: reduced; thorough: full) x {empty, full} "
@@ -309,6 +337,8 @@ def check(tier: str, seed: int) -> Result:
 
 
 def replay(case) -> List[Violation]:
+    if case["kind"] == "launch":
+        return launch_histories(case.get("tier", "quick"))[1][:1]
     if case["kind"] == "fresh":
         o = _worker_fresh([((tuple(case["a"][0]), case["a"][1]), (tuple(case["b"][0]), case["b"][1]), case["detail"])])
         return [Violation(s, m, c) for s, m, c in o["viol"]]
